@@ -171,6 +171,32 @@ impl St {
         }
     }
 
+    /// like `getb`, but the handle is the Bucket value yielded by the `buckets()` iterator (a different construction
+    /// site of Bucket in the library); names the iterator does not yield are classified by a plain get_bucket
+    fn getter_iter(&mut self, t: u64, h: u64, name: Vec<u8>, nh: u64) -> String {
+        let r: Result<Option<Bucket<'static, 'static>>, String> = if h == 0 {
+            let tx: &'static Tx<'static> = match self.txs.get(&t) {
+                None => return "badop".into(),
+                Some(tx) => unsafe { std::mem::transmute(tx) },
+            };
+            guarded(|| tx.buckets().find(|(nm, _)| nm.name() == &name[..]).map(|(_, b)| b))
+        } else {
+            let b: &'static Bucket<'static, 'static> = match self.handles.get(&(t, h)) {
+                None => return "badop".into(),
+                Some(b) => unsafe { std::mem::transmute(b) },
+            };
+            guarded(|| b.buckets().find(|(nm, _)| nm.name() == &name[..]).map(|(_, b)| b))
+        };
+        match r {
+            Ok(Some(b)) => {
+                self.handles.insert((t, nh), b);
+                "ok".into()
+            }
+            Ok(None) => self.getter("getb", t, h, name, nh),
+            Err(p) => p,
+        }
+    }
+
     pub fn exec(&mut self, line: &str) -> Option<String> {
         let w: Vec<&str> = line.split_whitespace().collect();
         if w.is_empty() || w[0].starts_with('#') {
@@ -218,6 +244,7 @@ impl St {
                 self.open()
             }
             "create" | "getb" | "goc" => self.getter(w[0], n(1), n(2), unhex(w[3]), n(4)),
+            "getbi" => self.getter_iter(n(1), n(2), unhex(w[3]), n(4)),
             "delb" => {
                 let (t, h, name) = (n(1), n(2), unhex(w[3]));
                 if h == 0 {
